@@ -37,7 +37,7 @@ pub fn run(f: &[&str]) -> String {
     crate::catch(move || {
         let mut out = String::new();
         match F::parse(&text) {
-            Err(_) => out.push_str("f=E"),
+            Err(_) => out.push_str("f_nf=E\tf=E"),
             Ok(e) => {
                 let v = sym_vars(e.var_names().len());
                 let r = e.eval(&v);
@@ -50,7 +50,7 @@ pub fn run(f: &[&str]) -> String {
                     hex(e.unparse())
                 ));
                 match e.clone().to_deepex() {
-                    Err(_) => out.push_str("\tf2d=E"),
+                    Err(_) => out.push_str("\tf2d_nf=E\tf2d=E"),
                     Ok(d) => {
                         let vd = sym_vars(d.var_names().len());
                         let r = d.eval(&vd);
@@ -61,12 +61,14 @@ pub fn run(f: &[&str]) -> String {
                             strs(d.var_names()),
                             hex(d.unparse())
                         ));
+                        // operator listings of the converted form
+                        out.push_str(&format!("\tf2dbr={}\tf2dur={}\tf2dor={}", strs(&d.binary_reprs()), strs(&d.unary_reprs()), strs(&d.operator_reprs())));
                     }
                 }
                 // the unfolded flat expression converted to the deep form (literal nodes still carry
                 // their unary operators here)
                 match F::parse_wo_compile(&text).and_then(|w| w.to_deepex()) {
-                    Err(_) => out.push_str("\two2d=E"),
+                    Err(_) => out.push_str("\two2d_nf=E\two2d=E"),
                     Ok(d) => {
                         let vd = sym_vars(d.var_names().len());
                         let r = d.eval(&vd);
@@ -83,14 +85,19 @@ pub fn run(f: &[&str]) -> String {
                     };
                 }
                 match cur {
-                    Err(_) => out.push_str("\th=E"),
+                    Err(_) => out.push_str("\th_nf=E\th=E"),
                     Ok(Either::Fl(g)) => {
                         let vg = sym_vars(g.var_names().len());
                         let r = g.eval(&vg);
                         out.push_str(&format!("\th_nf={}\th={}\thvars={}\thtext={}", res_nf(&r, &t), res(r), strs(g.var_names()), hex(g.unparse())));
                         // serde round trip of a flat expression derived from conversions
-                        match serde_json::to_string(&g).ok().and_then(|js| serde_json::from_str::<F>(&js).ok()) {
-                            None => out.push_str("\tsj=E"),
+                        // (from a string slice and from a reader: the latter cannot lend the deserialiser a borrowed str)
+                        match serde_json::to_string(&g).ok().and_then(|js| {
+                            let a = serde_json::from_str::<F>(&js).ok()?;
+                            let b = serde_json::from_reader::<_, F>(js.as_bytes()).ok()?;
+                            if a.unparse() == b.unparse() && a.var_names() == b.var_names() { Some(b) } else { None }
+                        }) {
+                            None => out.push_str("\tsj_nf=E\tsj=E"),
                             Some(g2) => {
                                 let v2 = sym_vars(g2.var_names().len());
                                 let r2 = g2.eval(&v2);
@@ -107,7 +114,7 @@ pub fn run(f: &[&str]) -> String {
             }
         }
         match D::parse(&text) {
-            Err(_) => out.push_str("\td=E"),
+            Err(_) => out.push_str("\td_nf=E\td=E"),
             Ok(d) => {
                 let v = sym_vars(d.var_names().len());
                 let r = d.eval(&v);
@@ -120,7 +127,7 @@ pub fn run(f: &[&str]) -> String {
                     strs(&d.operator_reprs())
                 ));
                 match F::from_deepex(d.clone()) {
-                    Err(_) => out.push_str("\td2f=E"),
+                    Err(_) => out.push_str("\td2f_nf=E\td2f=E"),
                     Ok(g) => {
                         let vg = sym_vars(g.var_names().len());
                         let r = g.eval(&vg);
@@ -128,7 +135,7 @@ pub fn run(f: &[&str]) -> String {
                     }
                 }
                 match F::parse(&txt) {
-                    Err(_) => out.push_str("\trt=E"),
+                    Err(_) => out.push_str("\trt_nf=E\trt=E"),
                     Ok(g) => {
                         let vg = sym_vars(g.var_names().len());
                         let r = g.eval(&vg);
